@@ -27,6 +27,34 @@ def obligations(ctx):
                                   {"K": k, "NN": nn, "RSZ": rsz, "ASZ": asz, "RSL": nn + 1, "ASL": nn + 2, "VIA": 0}, LIBS,
                                   unwind=40, family="vec_znx_normalize_base2k",
                                   desc="vec_znx_normalize_base2k via module table: digits of T mod 2^(k*a_size), zero extension, only res limbs written, input untouched"))
+    # loop structure for every (res_size, a_size) up to 10 with the per-limb primitive uninterpreted: one obligation per a_size (res_size, k symbolic);
+    # thorough: additionally both sizes and the strides symbolic in one query (20 min)
+    sm = 10
+    for asz in range(0, sm + 1):
+        # generic native probe (tried when the solver's own values - chosen under the uninterpreted reading - do not show the mismatch with the real primitive):
+        # res_size 1, k 62, a chain of limbs on the balanced boundary with the +1 carry born in the lowest limb
+        probe = [1, 62] + [(1 << 61) if i == asz - 1 else (1 << 61) - 1 for i in range(sm)] + [0] * (sm + 1)
+        obs.append(Ob("schedule/vec_znx_normalize_base2k_ref/N=1/a=%d/res<=%d" % (asz, sm), "c05_sched.c", "h_sched", {"SMAX": sm, "NNV": 1, "ASZ": asz, "FIXED_STRIDES": None},
+                      ["arithmetic/vec_znx.c"], unwind=2 * sm + 3, family="normalize loop structure (uninterpreted primitive)", timeout=900,
+                      desc="res_size in [0,10] and k in [1,62] symbolic; znx_normalize replaced by uninterpreted digit/carry functions (the primitive is decided by prim/): every "
+                           "output limb is the digit of its input limb with the carry threaded through EVERY lower limb, zero extension, nothing else written"))
+        obs[-1].probe_inputs = probe
+    if not ctx.quick:
+        for nnv in (1, 2):
+            smx = 10 if nnv == 1 else 6
+            obs.append(Ob("schedule/vec_znx_normalize_base2k_ref/N=%d/sizes<=%d/all-symbolic" % (nnv, smx), "c05_sched.c", "h_sched", {"SMAX": smx, "NNV": nnv}, ["arithmetic/vec_znx.c"],
+                          unwind=smx * (nnv + 1) + 3, family="normalize loop structure (uninterpreted primitive)", timeout=7200,
+                          desc="as above with res_size, a_size, both strides and k symbolic in one query"))
+    # long chains of dropped low limbs (a carry of +-1 born far below the kept digits travels through limbs sitting on the balanced boundary):
+    # a_size - res_size up to 7 at N=1 for a spread of k
+    deep = [(62, 1, 4), (62, 2, 5), (32, 1, 4), (32, 1, 5)]
+    if not ctx.quick:
+        deep += [(32, 2, 6), (19, 1, 6), (19, 2, 6), (13, 1, 7), (8, 1, 8), (2, 1, 8)] + [(k, 1, a) for k in (3, 5, 11, 16, 21, 31, 33, 47, 61) for a in (5, 7)]
+    for (k, rsz, asz) in deep:
+        for via in (0, 1):
+            obs.append(Ob("deep/%s/k=%d/res=%d/a=%d" % ("vec" if via == 0 else "big", k, rsz, asz), H, "h_vec",
+                          {"K": k, "NN": 1, "RSZ": rsz, "ASZ": asz, "RSL": 2, "ASL": 1, "VIA": via}, LIBS, unwind=40, family="normalize, long dropped chains", timeout=900 if ctx.quick else 7200,
+                          desc="as vec/: digits of T mod 2^(k*a_size) with many more input limbs than output limbs"))
     # strides and dispatch, in place, big and range variants on a reduced k set
     ks2 = [19] if ctx.quick else [1, 2, 19, 33, 61, 62]
     for k in ks2:
@@ -73,7 +101,7 @@ def check(ctx, only=None, list_only=False):
                               "fill_virtual_table (real dispatch table)", "znx_zero_i64_ref"],
         "bounds": "k: every 1..62 for the primitive; vector level k in {1,2,19,32,61,62} (quick; variants at k=19) / all 62 (thorough); limb counts 0..3 (0..4 thorough) "
                   "in all orderings; N in {1,2}; strides N..N+3; range triples with xend<=4, step 1..3; all data values |a_i|<=2^62 symbolic",
-        "outside": "a_size > 3 (4 thorough); N > 2 (coefficients are processed independently); k symbolic in a single query",
+        "outside": "a_size > 3 (4 thorough) except the listed long-chain shapes (a_size up to 8 at N=1); N > 2 (coefficients are processed independently); k symbolic in a single query",
         "assumptions": ["|in| <= 2^62 (documented)", "carry_in in [-2^(64-k), 2^(64-k)-1] for k>=2 (documented: at most 65-k bits); |carry_in| <= 2^62 for k=1",
                         "malloc never fails", "module table built by the real fill_virtual_table with CPU detection replaced by a flag"],
     }
